@@ -117,6 +117,7 @@ class Fn:
         self._reach: dict[tuple[str, int], list[Def]] = {}
         self._mutated: set[str] | None = None
         self.params = set(fi.param_names)
+        self.vocabulary: set[str] = set()  # fq names of helpers that are never replaced by their bodies
 
     # ------------------------------------------------------------------ definitions made by one statement
     def _bind(self, out: dict[str, Def], target: ast.AST, value: ast.expr | None, stmt: ast.AST, kind: str, path: tuple = ()) -> None:
@@ -438,7 +439,11 @@ class Fn:
         callee = self.callee(call)
         if callee is None or isinstance(callee.node, ast.Lambda) or callee.is_property:
             return None
-        if not (callee.name.startswith("_") and not callee.name.startswith("__") or callee.cls is None or callee.outer is not None or callee.is_staticmethod):
+        # private helpers, nested functions, and functions / static methods of the module under analysis; public functions of
+        # other modules (convert_partial_match_to_regex, filter_to_module, the graph searches) are vocabulary and stay calls
+        private = callee.name.startswith("_") and not callee.name.startswith("__")
+        local = callee.module is self.fi.module and (callee.cls is None or callee.is_staticmethod)
+        if not (private or callee.outer is not None or local) or callee.fq in self.vocabulary:
             return None
         body = strip_docstring(callee.node.body)
         if not body or not isinstance(body[-1], ast.Return) or body[-1].value is None:
